@@ -146,6 +146,9 @@ func main() {
 	opts.Thorough = *tier == "thorough"
 	opts.SolverLog = *slog
 	opts.MaxPaths = *maxpaths
+	if v := os.Getenv("VERIF_SEED"); v != "" {
+		fmt.Sscanf(v, "%d", &opts.Seed)
+	}
 	if *fallb != "" {
 		for _, f := range strings.Split(*fallb, ",") {
 			if f != *solver {
